@@ -13,6 +13,7 @@
 //! No expectation is computed here: the specification decides.
 mod levels;
 mod props;
+mod repro;
 
 use arrow_array::*;
 use arrow_schema::{DataType, Field, Fields, IntervalUnit, Schema, SchemaRef, TimeUnit};
@@ -124,6 +125,51 @@ fn flat_ree(t: &DataType) -> DataType {
     }
 }
 
+/// the data type as a string; `dict_id` (deprecated, not part of `Field` equality) is left out
+fn type_str(t: &DataType) -> String {
+    let s = tok::type_str(t);
+    let mut out = String::with_capacity(s.len());
+    let mut rest = s.as_str();
+    while let Some(i) = rest.find(", dict_id: ") {
+        out.push_str(&rest[..i]);
+        let tail = &rest[i + 11..];
+        let n = tail.find(|c: char| !(c.is_ascii_digit() || c == '-')).unwrap_or(tail.len());
+        rest = &tail[n..];
+    }
+    out.push_str(rest);
+    out
+}
+
+/// do the list views below `a` address their child out of order or with overlaps?
+fn listview_unordered(a: &dyn Array) -> bool {
+    use arrow_array::cast::AsArray;
+    use DataType::*;
+    fn check<O: arrow_array::OffsetSizeTrait>(l: &GenericListViewArray<O>) -> bool {
+        let mut end = 0usize;
+        for i in 0..l.len() {
+            let o = l.value_offsets()[i].as_usize();
+            let s = l.value_sizes()[i].as_usize();
+            if s > 0 {
+                if o < end {
+                    return true;
+                }
+                end = o + s;
+            }
+        }
+        false
+    }
+    match a.data_type() {
+        ListView(_) => check(a.as_list_view::<i32>()) || listview_unordered(a.as_list_view::<i32>().values().as_ref()),
+        LargeListView(_) => check(a.as_list_view::<i64>()) || listview_unordered(a.as_list_view::<i64>().values().as_ref()),
+        List(_) => listview_unordered(a.as_list::<i32>().values().as_ref()),
+        LargeList(_) => listview_unordered(a.as_list::<i64>().values().as_ref()),
+        FixedSizeList(..) => listview_unordered(a.as_fixed_size_list().values().as_ref()),
+        Map(..) => listview_unordered(a.as_map().entries()),
+        Struct(_) => a.as_struct().columns().iter().any(|c| listview_unordered(c.as_ref())),
+        _ => false,
+    }
+}
+
 /// features of a type that scope known findings (a projection of the type)
 fn features(t: &DataType, out: &mut Vec<&'static str>) {
     use DataType::*;
@@ -135,8 +181,12 @@ fn features(t: &DataType, out: &mut Vec<&'static str>) {
     match t {
         Dictionary(_, v) => {
             add("dict");
-            if matches!(v.as_ref(), Utf8View | BinaryView) {
-                add("dictview");
+            match v.as_ref() {
+                Utf8View | BinaryView => add("dictview"),
+                FixedSizeBinary(_) => add("dictfsb"),
+                Float16 | Decimal256(..) => add("dictflba"),
+                Decimal128(p, _) if *p > 18 => add("dictflba"),
+                _ => {}
             }
             features(v, out);
         }
@@ -250,13 +300,13 @@ fn make_input(rng: &mut Rng, pool: &[DataType], max_rows: usize, ncols: usize) -
 
 fn schema_fields(ev: &mut serde_json::Map<String, Value>, s: &Schema, suffix: &str) {
     ev.insert(format!("names{suffix}"), json!(s.fields().iter().map(|f| f.name().clone()).collect::<Vec<_>>()));
-    ev.insert(format!("types{suffix}"), json!(s.fields().iter().map(|f| tok::type_str(f.data_type())).collect::<Vec<_>>()));
+    ev.insert(format!("types{suffix}"), json!(s.fields().iter().map(|f| type_str(f.data_type())).collect::<Vec<_>>()));
     ev.insert(format!("nullable{suffix}"), json!(s.fields().iter().map(|f| f.is_nullable()).collect::<Vec<_>>()));
 }
 
 fn describe_schema(ev: &mut serde_json::Map<String, Value>, schema: &Schema) {
     schema_fields(ev, schema, "_in");
-    ev.insert("types_flat".into(), json!(schema.fields().iter().map(|f| tok::type_str(&flat_ree(f.data_type()))).collect::<Vec<_>>()));
+    ev.insert("types_flat".into(), json!(schema.fields().iter().map(|f| type_str(&flat_ree(f.data_type()))).collect::<Vec<_>>()));
     ev.insert("top_ree".into(), json!(schema.fields().iter().map(|f| matches!(f.data_type(), DataType::RunEndEncoded(..))).collect::<Vec<_>>()));
     ev.insert("any_ree".into(), json!(schema.fields().iter().map(|f| has_ree(f.data_type())).collect::<Vec<_>>()));
 }
@@ -551,7 +601,13 @@ struct Counters {
 
 /// the event that ends an episode in which the code under test failed; None when the writer
 /// reports the input as unsupported (skipped, not judged)
-fn fail_event(f: Fail, schema: &Schema, cfg: &str, cnt: &mut Counters) -> Option<Value> {
+fn fail_event(f: Fail, inp: &Input, p: &Props, cnt: &mut Counters) -> Option<Value> {
+    let schema: &Schema = &inp.schema;
+    let cfg = p.describe();
+    let mut feat = schema_features(schema);
+    if inp.batches.iter().any(|b| b.columns().iter().any(|c| listview_unordered(c.as_ref()))) {
+        feat.push("lvunordered");
+    }
     if !f.panic && f.stage == "write" && unsupported(&f.note) {
         cnt.skipped += 1;
         return None;
@@ -563,8 +619,8 @@ fn fail_event(f: Fail, schema: &Schema, cfg: &str, cnt: &mut Counters) -> Option
     }
     Some(json!({
         "op": "fail", "stage": f.stage, "panic": f.panic, "note": f.note.chars().take(200).collect::<String>(),
-        "feat": schema_features(schema), "cfg": cfg,
-        "types_in": schema.fields().iter().map(|x| tok::type_str(x.data_type())).collect::<Vec<_>>(),
+        "feat": feat, "cfg": cfg, "cdc": p.cdc.is_some(),
+        "types_in": schema.fields().iter().map(|x| type_str(x.data_type())).collect::<Vec<_>>(),
     }))
 }
 
@@ -580,7 +636,7 @@ fn rt_episode(rng: &mut Rng, pool: &[DataType], max_rows: usize, tr: &mut Shards
         match step("write", || ArrowWriter::try_new(&mut probe, inp.schema.clone(), Some(props)).map(|_| ()).map_err(|e| e.to_string())) {
             Ok(()) => {}
             Err(f) => {
-                if let Some(e) = fail_event(f, &inp.schema, &p.describe(), cnt) {
+                if let Some(e) = fail_event(f, &inp, &p, cnt) {
                     tr.emit(e);
                     tr.next_episode();
                 }
@@ -594,6 +650,7 @@ fn rt_episode(rng: &mut Rng, pool: &[DataType], max_rows: usize, tr: &mut Shards
     describe_schema(&mut ev, &inp.schema);
     ev.insert("maxrg".into(), json!(p.maxrg.unwrap_or(0)));
     ev.insert("bytes".into(), json!(p.maxbytes.is_some()));
+    ev.insert("cdc".into(), json!(p.cdc.is_some()));
     tr.emit(Value::Object(ev));
     let res = write_serial(rng, &inp, &p, Some(tr)).and_then(|w| {
         let mut ev = serde_json::Map::new();
@@ -613,8 +670,8 @@ fn rt_episode(rng: &mut Rng, pool: &[DataType], max_rows: usize, tr: &mut Shards
         }
         Err(f) => {
             // an episode may end in a failure after some calls were recorded: the `fail` event closes it
-            let e = fail_event(Fail { note: f.note.clone(), ..f }, &inp.schema, &p.describe(), cnt)
-                .unwrap_or_else(|| json!({"op": "fail", "stage": "write", "panic": false, "note": "unsupported", "feat": schema_features(&inp.schema), "cfg": "", "types_in": []}));
+            let e = fail_event(Fail { note: f.note.clone(), ..f }, &inp, &p, cnt)
+                .unwrap_or_else(|| json!({"op": "fail", "stage": "write", "panic": false, "note": "unsupported", "feat": schema_features(&inp.schema), "cfg": "", "cdc": false, "types_in": []}));
             tr.emit(e);
         }
     }
@@ -659,6 +716,7 @@ fn par_episode(rng: &mut Rng, pool: &[DataType], max_rows: usize, tr: &mut Shard
     describe_schema(&mut ev, &inp.schema);
     let rin: Vec<String> = inp.batches.iter().flat_map(tok::batch_rows).collect();
     ev.insert("rin".into(), tok::strs(&rin));
+    ev.insert("cdc".into(), json!(false));
     ev.insert("parts".into(), json!(parts));
     ev.insert("orders".into(), json!(orders));
     let res = write_parallel(&inp, &p, &parts, &orders).and_then(|bytes| {
@@ -674,7 +732,7 @@ fn par_episode(rng: &mut Rng, pool: &[DataType], max_rows: usize, tr: &mut Shard
             cnt.par += 1;
         }
         Err(f) => {
-            if let Some(e) = fail_event(f, &inp.schema, &p.describe(), cnt) {
+            if let Some(e) = fail_event(f, &inp, &p, cnt) {
                 tr.emit(e);
             }
         }
@@ -707,7 +765,7 @@ fn lv_episode(rng: &mut Rng, max_rows: usize, tr: &mut Shards, cnt: &mut Counter
     let mut ev = serde_json::Map::new();
     ev.insert("op".into(), json!("lv"));
     ev.insert("cfg".into(), json!(p.describe()));
-    ev.insert("types_in".into(), json!([tok::type_str(schema.field(0).data_type())]));
+    ev.insert("types_in".into(), json!([type_str(schema.field(0).data_type())]));
     ev.insert("schema".into(), levels::schema_tree(schema.field(0)));
     ev.insert("rows".into(), Value::Array((0..total).map(|i| levels::value_tree(cols[0].as_ref(), i)).collect()));
     let res = write_serial(rng, &inp, &p, None).and_then(|w| {
@@ -723,7 +781,10 @@ fn lv_episode(rng: &mut Rng, max_rows: usize, tr: &mut Shards, cnt: &mut Counter
             cnt.lv += 1;
         }
         Err(f) => {
-            if let Some(e) = fail_event(f, &schema, &p.describe(), cnt) {
+            if std::env::var("C05_DEBUG").is_ok() && total <= 8 && f.panic {
+                eprintln!("DEBUG lv fail: {} ops={:?} cfg={}\n{:?}", f.note, inp.ops, p.describe(), cols[0]);
+            }
+            if let Some(e) = fail_event(f, &inp, &p, cnt) {
                 tr.emit(e);
             }
         }
@@ -734,6 +795,10 @@ fn lv_episode(rng: &mut Rng, max_rows: usize, tr: &mut Shards, cnt: &mut Counter
 fn main() {
     let args = Args::parse();
     vcore::quiet_panics();
+    if args.driver == "repro" {
+        repro::run();
+        return;
+    }
     let mut rng = Rng::new(args.seed ^ 0xC05);
     let pool = type_pool();
     let max_rows = args.scale(48, 130);
